@@ -33,6 +33,16 @@ static void child(void* arg)
   observe(rules, c, &o0, &nm, &ns);
   printf(" E=%s O=%s N=%d:%d", sb_str(&e0), sb_str(&o0), nm, ns); fflush(stdout);
 
+  // dis=<m>: every rule whose position is a multiple of m is disabled BEFORE saving (the flag is part of the rules and is
+  // saved); all later comparisons refer to that state; after loading, every rule of both copies is enabled again
+  int dis = (int) case_int(c, "dis", 0);
+  if (dis > 0)
+  {
+    YR_RULE* r; int k = 0;
+    yr_rules_foreach(rules, r) { if (k % dis == 0) yr_rule_disable(r); k++; }
+    sb_reset(&o0);
+    observe(rules, c, &o0, NULL, NULL);
+  }
   const char* via = case_get(c, "via", 0);
   int file = via && !strcmp(via, "file");
   char path[512];
@@ -109,6 +119,20 @@ static void child(void* arg)
     printf(" S2=%s", errname(rc2));
     eq_or(&line, "IMG2", a, b);
     printf("%s", sb_str(&line)); fflush(stdout);
+    if (dis > 0)
+    {
+      // cached tables built at load time must not depend on the flags the rules were saved with
+      YR_RULE* r;
+      SB oe = {0}, le = {0};
+      yr_rules_foreach(rules, r) yr_rule_enable(r);
+      yr_rules_foreach(loaded, r) yr_rule_enable(r);
+      observe(rules, c, &oe, NULL, NULL);
+      observe(loaded, c, &le, NULL, NULL);
+      sb_reset(&line);
+      eq_or(&line, "EN", sb_str(&oe), sb_str(&le));
+      printf("%s", sb_str(&line)); fflush(stdout);
+      { int k = 0; yr_rules_foreach(rules, r) { if (k % dis == 0) yr_rule_disable(r); k++; } }
+    }
     // and the original once more, now that a second rule set lives in the process
     SB o3 = {0};
     observe(rules, c, &o3, NULL, NULL);
